@@ -698,6 +698,7 @@ void run(Src &src, Case &c)
                     first = l;
                 }
             }
+            c.cls("diag:" + f);
             c.alsoFailed.emplace_back("C17.diagnostic|" + f, "cc -std=c99 -Wall -Wextra reports " + std::to_string(bad.size()) + " diagnostics other than unused-parameter / unused-variable, first of this kind: " + (first.empty() ? bad[0] : first) + "\n--- implementation ---\n" + impl.substr(0, 8000));
         }
         if (warnings.find("[-Wunused-parameter]") != std::string::npos) c.cls("diag:unused-parameter");
